@@ -475,6 +475,10 @@ def simple_check(ctx, jobs, rule, nontrivial, describe=None, known_filter=None, 
                     mine.append((l, part))
                 elif part.startswith("DIFF"):
                     diffs.append((l, part))
+                elif part.startswith("ORACLE bad-") or part.startswith("bad-"):
+                    # the driver could not parse what the harness printed: a protocol error of the machinery itself,
+                    # never to be ignored (it would silently switch clauses off)
+                    crashes.append((l, "driver protocol error: " + part))
                 elif part.startswith("ORACLE"):
                     pass
                 else:
